@@ -126,8 +126,14 @@ class Latest(Selector):
                 instances = tuple(self._cache.items())
             LOGGER.debug('Refreshing %d cached instances', len(instances))
             for registry, old in instances:
-                new = self._pick(registry)
-                if new != old:
+                try:
+                    new = self._pick(registry)
+                    changed = new != old
+                except Exception as err:  # pylint: disable=broad-except
+                    # e.g. the configured release has no generation yet - keep refreshing rather than dying for good
+                    LOGGER.warning('Unable to refresh the latest instance of %s: %s', self._project, err)
+                    continue
+                if changed:
                     LOGGER.info('Updating latest instance to %s', new)
                     with self._lock:
                         self._cache[registry] = new
